@@ -250,7 +250,7 @@ var ftTyped = []ftAccessor{
 
 func ftRandomCount(tier string) int {
 	if tier == "thorough" {
-		return 1500000
+		return 6000000
 	}
 	return 60000
 }
